@@ -4,7 +4,10 @@
    the float arithmetic of the region geometry is carried out in Q (the correspondence run compares it with
    the implementation's doubles up to 1e-9; region identity only depends on exact equality of the small
    integers the geometry is computed from).  Exceptions are explicit outcomes.  The SMPTE arithmetic is
-   Model/TimeCode.v (verified under C12). *)
+   Model/TimeCode.v (verified under C12).  Also here: the values passed to the progress callback (progress_model)
+   and the two configuration decoders of ttconv/stl/config.py (decode_start_tc, decode_max_row_count).
+   The model follows the code after the repairs of the second phase (comment blocks skipped, text field cut at the
+   first 0x8F, a paragraph is opened when there is none, VP 0 = row 1, progress division guarded). *)
 From Coq Require Import QArith.
 From TT Require Import Base.Prelude Gen.StlTables Model.TimeCode Model.Iso6937 Model.StlTf.
 Open Scope Z_scope.
@@ -27,6 +30,7 @@ Record para := mkPara { p_region : Z ;            (* index into the region list 
                         p_font_size : Z ; p_line_height : Z ;
                         p_time : option (Q * Q) ; p_items : list pitem }.
 Record sdoc := mkDoc { d_lang : list Z ; d_cols : Z ; d_rows : Z ;
+                       d_active : Q * Q * Q * Q ;          (* active area: left offset, top offset, width, height *)
                        d_fill_line_gap : bool ; d_line_padding : option (Z * Z) ; d_fonts : list font ;
                        d_regions : list region ; d_divs : list (list para) }.
 Inductive outcome := Ok (d : sdoc) | Err (e : error).
@@ -55,11 +59,6 @@ Definition py_int (bs : list Z) : option Z :=
   | 45 :: r => match digits_go r 0 false with Some n => Some (- n) | None => None end
   | _ => digits_go s 0 false
   end.
-
-(* bytes.strip(b'\x8f') *)
-Fixpoint lstrip_8f (bs : list Z) : list Z :=
-  match bs with [] => [] | b :: r => if b =? 143 then lstrip_8f r else bs end.
-Definition strip_8f (bs : list Z) : list Z := rev (lstrip_8f (rev (lstrip_8f bs))).
 
 Definition qz (n : Z) : Q := inject_Z n.
 (* Fraction(to_frames, frame_rate) *)
@@ -161,7 +160,8 @@ Definition safe_area_height : Z := 100 - default_vertical_safe_margin_pct * 2.
 Definition safe_area_width : Z := 100 - default_horizontal_safe_margin_pct * 2.
 
 (* the region of a new subtitle; None = ZeroDivisionError *)
-Definition region_for (max_rows vp : Z) (tf : list Z) (dh : bool) : option region :=
+Definition region_for (max_rows tti_vp : Z) (tf : list Z) (dh : bool) : option region :=
+  let vp := Z.max tti_vp 1 in                       (* vp = max(tti.VP, 1) *)
   if vp <? max_rows / 2 then
     let r_y := (qz default_vertical_safe_margin_pct + (qz (vp - 1) / qz max_rows) * qz safe_area_height)%Q in
     Some (mkRegion (qz default_horizontal_safe_margin_pct) r_y (qz safe_area_width)
@@ -173,20 +173,19 @@ Definition region_for (max_rows vp : Z) (tf : list Z) (dh : bool) : option regio
     Some (mkRegion (qz default_horizontal_safe_margin_pct) (qz default_vertical_safe_margin_pct) (qz safe_area_width)
                    ((qz (vp + lc * lh - 1) / qz max_rows) * qz safe_area_height)%Q true).
 
-(* process_tti_block *)
-Definition process_tti (f : datafile) (s : state) (t : tti) : state + error :=
-  if (239 <? t_ebn t) && (t_ebn t <? 255) then inl s else
-  let tf := (if st_in_ext s then st_tf s else []) ++ strip_8f (t_tf t) in
+(* process_tti_block from "apply program offset" on: the terminal block `t` of a subtitle whose accumulated text
+   field is `tf` (self.tti_tf) *)
+Definition no_paragraph (s : state) : bool := match st_cur s with None => true | Some _ => false end.
+Definition complete_subtitle (f : datafile) (s : state) (t : tti) (tf : list Z) : state + error :=
   let dh := has_double_height_char tf in
-  if negb (t_ebn t =? 255) then inl (mkState true tf (st_last_sn s) (st_divs s) (st_cur s) (st_regions s)) else
   let begin_time := (offset_q (f_fps f) (t_tci t) - f_start f)%Q in
   let s0 := mkState false tf (st_last_sn s) (st_divs s) (st_cur s) (st_regions s) in
   if q_neg begin_time then inl s0 else
   let end_time := (offset_q (f_fps f) (t_tco t) - f_start f)%Q in
   if q_lt end_time begin_time then inl s0 else
-  (* a new subtitle *)
+  (* a new subtitle: the number changes outside a cumulative set, or there is no paragraph to continue *)
   let s1 : state + error :=
-    if sn_differs (t_sn t) (st_last_sn s) && ((t_cs t =? 0) || (t_cs t =? 1)) then
+    if (sn_differs (t_sn t) (st_last_sn s) && ((t_cs t =? 0) || (t_cs t =? 1))) || no_paragraph s then
       let divs := commit s in
       let divs := if has_div divs (t_sgn t) then divs else divs ++ [(t_sgn t, [])] in
       let align := if t_jc t =? 1 then 0 else if t_jc t =? 3 then 2 else 1 in
@@ -204,7 +203,7 @@ Definition process_tti (f : datafile) (s : state) (t : tti) : state + error :=
   | inr e => inr e
   | inl s1 =>
       match st_cur s1 with
-      | None => inr EAttribute                      (* self.cur_p_element is None *)
+      | None => inr EAttribute                      (* self.cur_p_element is None: not reached (Proofs/C09/File.v) *)
       | Some (sgn, p) =>
           let leaves := tf_model (decoder_of_cct (f_cct f)) (f_teletext f) tf in
           let p' :=
@@ -218,7 +217,17 @@ Definition process_tti (f : datafile) (s : state) (t : tti) : state + error :=
       end
   end.
 
-(* reader.to_model: the loop over 128-byte reads, then progress_callback(i / tti_count) *)
+(* process_tti_block: user-data/reserved blocks and comment blocks are skipped; the text field up to the first
+   unused-space byte is appended to the fields of the preceding extension blocks *)
+Definition process_tti (f : datafile) (s : state) (t : tti) : state + error :=
+  if (239 <? t_ebn t) && (t_ebn t <? 255) then inl s else
+  if t_cf t =? 1 then inl s else
+  let tf := (if st_in_ext s then st_tf s else []) ++ before_8f (t_tf t) in
+  if negb (t_ebn t =? 255) then inl (mkState true tf (st_last_sn s) (st_divs s) (st_cur s) (st_regions s)) else
+  complete_subtitle f s t tf.
+
+(* reader.to_model: the loop over 128-byte reads; progress_callback(i / tti_count) is only called when
+   tti_count > 0 and has no effect on the document *)
 Fixpoint read_blocks (fuel : nat) (f : datafile) (s : state) (bs : list Z) : state + error :=
   match fuel with
   | O => inl s
@@ -230,15 +239,73 @@ Fixpoint read_blocks (fuel : nat) (f : datafile) (s : state) (bs : list Z) : sta
           if negb (Nat.eqb (length buf) 128) then inr EStruct else
           match process_tti f s (unpack_tti buf) with
           | inr e => inr e
-          | inl s' => if f_tti_count f =? 0 then inr EZeroDiv else read_blocks k f s' (skipn 128 bs)
+          | inl s' => read_blocks k f s' (skipn 128 bs)
           end
       end
+  end.
+
+(* the values passed to progress_callback: i / tti_count after the i-th block (counted from 0) that was processed
+   without an exception, when tti_count > 0 *)
+Fixpoint progress_go (fuel : nat) (f : datafile) (s : state) (bs : list Z) (i : Z) : list Q :=
+  match fuel with
+  | O => []
+  | S k =>
+      match bs with
+      | [] => []
+      | _ =>
+          let buf := firstn 128 bs in
+          if negb (Nat.eqb (length buf) 128) then [] else
+          match process_tti f s (unpack_tti buf) with
+          | inr _ => []
+          | inl s' => (if 0 <? f_tti_count f then [Qmake i (Z.to_pos (f_tti_count f))] else []) ++
+                      progress_go k f s' (skipn 128 bs) (i + 1)
+          end
+      end
+  end.
+Definition progress_model (file : list Z) (cfg : config) : list Q :=
+  let g := firstn 1024 file in
+  if negb (Nat.eqb (length g) 1024) then [] else
+  match init (unpack_gsi g) cfg with
+  | inr _ => []
+  | inl f => progress_go (S (length file)) f state0 (skipn 1024 file) 0
+  end.
+
+(* ---- stl/config.py: the decoders of program_start_tc and max_row_count (STLReaderConfiguration.parse) -------------- *)
+Inductive cfg_value := VStr (t : text) | VInt (n : Z) | VBool (b : bool) | VOther.      (* a JSON value *)
+(* value.upper() == "TCP" / "MNR": no character other than the ASCII letters upper-cases to T, C, P, M, N, R
+   (checked against CPython's tables by harness/gen_c09.py) *)
+Definition upper_is (a b c : Z) (t : text) : bool :=
+  match t with
+  | [x; y; z] => ((x =? a) || (x =? a + 32)) && ((y =? b) || (y =? b + 32)) && ((z =? c) || (z =? c + 32))
+  | _ => false
+  end.
+(* _decode_start_tc on None / a string: "TCP", or a string that starts with NN?NN?NN?NN (? any character but a
+   new-line: the DF pattern's separator group has an unescaped dot), else ValueError *)
+Definition decode_start_tc (v : option text) : start_tc + error :=
+  match v with
+  | None => inl StNone
+  | Some t => if upper_is 84 67 80 t then inl StTCP
+              else match match_tc (fun c => negb (c =? newline)) t with
+                   | Some _ => inl (StStr t)
+                   | None => inr EValue
+                   end
+  end.
+(* _decode_max_row_count: None, "MNR" in any case, an int (bool included: True is 1), else ValueError *)
+Definition decode_max_row_count (v : option cfg_value) : max_rows_cfg + error :=
+  match v with
+  | None => inl MrNone
+  | Some (VStr t) => if upper_is 77 78 82 t then inl MrMNR else inr EValue
+  | Some (VInt n) => inl (MrInt n)
+  | Some (VBool b) => inl (MrInt (if b then 1 else 0))
+  | Some VOther => inr EValue
   end.
 
 Definition finish (f : datafile) (cfg : config) (s : state) : sdoc :=
   mkDoc (f_lang f)
         (round_he (100 * default_teletext_cols) (100 - 2 * default_horizontal_safe_margin_pct))
         (round_he (100 * default_teletext_rows) (100 - 2 * default_vertical_safe_margin_pct))
+        (qz default_horizontal_safe_margin_pct / 100, qz default_vertical_safe_margin_pct / 100,
+         1 - 2 * qz default_horizontal_safe_margin_pct / 100, 1 - 2 * qz default_vertical_safe_margin_pct / 100)%Q
         (negb (cf_disable_fill_line_gap cfg))
         (if cf_disable_line_padding cfg then None else Some line_padding_length_c)
         (match cf_font_stack cfg with Some fs => fs | None => default_font_stack end)
